@@ -47,6 +47,8 @@ func main() {
 	switch a["mode"] {
 	case "search":
 		search(a)
+	case "conc":
+		conc(a)
 	case "script":
 		runScript(a["file"])
 	case "keys":
